@@ -232,15 +232,17 @@ inductive Out
   | vals (v : List Scalar)
   deriving Repr, Inhabited
 
-def mergeLoop (us : Units) (h : Heap) (d : DS) (w : W) : List Nat → M (Heap × DS)
+/-- `for dset in dsets: self.extend(dset)`; `di` is the slot of `self` (a dataset may be merged
+with itself, and then it is the current, already extended one) -/
+def mergeLoop (us : Units) (h : Heap) (d : DS) (w : W) (di : Nat) : List Nat → M (Heap × DS)
   | [] => .ok (h, d)
   | e :: es =>
-    match w.getDs e with
+    match (if e == di then .ok d else w.getDs e) with
     | .error err => .error err
     | .ok x =>
       match dsExtend us h d x with
       | .error err => .error err
-      | .ok (h', d') => mergeLoop us h' d' w es
+      | .ok (h', d') => mergeLoop us h' d' w di es
 
 def step (w : W) (op : Op) : M (W × Out) :=
   match op with
@@ -283,7 +285,7 @@ def step (w : W) (op : Op) : M (W × Out) :=
     match w.getDs d with
     | .error e => .error e
     | .ok x =>
-      match mergeLoop w.units w.heap x w es with
+      match mergeLoop w.units w.heap x w d es with
       | .error e => .error e
       | .ok (h, x') =>
         match sortBy with
